@@ -133,6 +133,18 @@ func GenOD(w *World, prof ODProfile) *Scenario {
 		}
 		switch kind {
 		case 0:
+			if prof.EmptyStart && s.Chance(1, 8, "edit-to-empty") {
+				// the CRD allows going back to a template without phases: no revision is created for it
+				cur = -1
+				sc.UserOps = append(sc.UserOps, UserOp{Label: "edit template -> empty", Do: func(w *World) {
+					_, _ = w.TP("user", w.Mgmt).Mutate(g.Key, func(o store.Obj) {
+						sp, _ := o["spec"].(map[string]any)
+						t, _ := sp["template"].(map[string]any)
+						t["spec"] = map[string]any{}
+					})
+				}})
+				continue
+			}
 			idx := s.Intn(nT, "edit-template")
 			what := "edit"
 			if idx == cur {
